@@ -3,8 +3,8 @@ package harness
 import (
 	"bufio"
 	"crypto/sha256"
-	"errors"
 	"encoding/hex"
+	"errors"
 	"fmt"
 	"os"
 	"sort"
